@@ -650,6 +650,12 @@ func Rel[T VFSBase](vfs T, basepath, targpath string) (string, error) {
 		return "", errors.New("Rel: can't make " + targpath + " relative to " + basepath)
 	}
 
+	if sameWord(vfs, targ, base) {
+		// `\\host\share` and `\\host\share\` are the same directory
+		// (the loop below does not end when both paths run out together).
+		return ".", nil
+	}
+
 	// Position base[b0:bi] and targ[t0:ti] at the first differing elements.
 	bl := len(base)
 	tl := len(targ)
